@@ -149,6 +149,13 @@ func c19buckets(c *ctx) {
 
 func c19(c *ctx) {
 	c19buckets(c)
+	ntv := 2
+	if c.thorough() {
+		ntv = 8
+	}
+	for k := 0; k < ntv; k++ {
+		c19twoValves(c, k)
+	}
 	nb := 10
 	if c.thorough() {
 		nb = 96
